@@ -17,7 +17,7 @@ import z3
 from .core import HarnessError, cur, fork
 
 TOKEN_L, TOKEN_R = "⟦", "⟧"
-MAX_TABLE = 60000
+MAX_TABLE = 200000
 
 
 def _token(value, spec, how):
